@@ -52,20 +52,71 @@ def shapes(k):
     return out
 
 
-def step_job(k, par, side, code, tier):
-    return Job("C11.step.n%d.%s" % (k, code), "l0/bst_step.c", sources=L0_SRC, extra_harness=["common/vf_defs.c"],
-               defines={"N": k, "VF_PAR": ",".join(map(str, par)), "VF_SIDE": ",".join(map(str, side))},
-               unwind=max(4 * k + 4, 10), unwindset=lib_bounds(k + 1), fp=FP, flags=FLAGS,
-               symbolic=["element of every node", "op", "argument element"], bounds="n=%d shape=%s" % (k, code),
-               native=NATIVE, timeout=200)
+GROUPS = [("insert", 1 << 0), ("remove", 1 << 1), ("other", 0xfc)]     # bit masks over the harness's op enum
+
+
+def step_jobs(k, par, side, code, tier, suffix_itr=False):
+    """one shape; small shapes in one job, from 3 nodes on one job per operation group (formula size is superlinear)"""
+    groups = [("all", 0xff)] if k <= 2 else GROUPS
+    if suffix_itr:
+        groups = [(g + "+itr", m) for g, m in GROUPS[:2]]
+    js = []
+    for gname, mask in groups:
+        d = {"N": k, "VF_PAR": ",".join(map(str, par)), "VF_SIDE": ",".join(map(str, side)), "VF_OPS": mask}
+        if suffix_itr:
+            d["VF_SUFFIX_ITR"] = 1
+        js.append(Job("C11.step.n%d.%s.%s" % (k, code, gname), "l0/bst_step.c", sources=L0_SRC,
+                      extra_harness=["common/vf_defs.c"], defines=d,
+                      unwind=max(4 * k + 4, 10, 2 ** k + 2), unwindset=lib_bounds(k + 1), fp=FP, flags=FLAGS,
+                      symbolic=["element of every node", "op", "argument element", "comparator installed",
+                                "dtor installed", "traversal order/stop position/callback result",
+                                "iterator removal mask", "key of suffix find"],
+                      bounds="n=%d shape=%s ops=%s" % (k, code, gname), native=NATIVE,
+                      timeout=300 if tier == "quick" else 1200))
+    return js
+
+
+def script_job(L, cmpf, tier, split=None):
+    d = {"L": L, "VF_CMP": cmpf}
+    name = "C11.script.L%d.%s" % (L, "usercmp" if cmpf else "ptrcmp")
+    if split is not None:
+        d["VF_SPLIT_K"], d["VF_SPLIT_I"] = split
+        name += ".part%dof%d" % (split[1] + 1, split[0])
+    ne = 2 ** (L + 2)
+    return Job(name, "l0/bst_script.c", sources=L0_SRC, extra_harness=["common/vf_defs.c"], defines=d,
+               unwind=ne + 2, unwindset=lib_bounds(L), fp=FP, flags=FLAGS, fsa=max(ne, 64), object_bits=16,
+               symbolic=["op[0..L)", "relative position of the argument of every step (equal to j-th / twin / gap g)",
+                         "iterator removal masks", "dtor installed"],
+               bounds="L=%d" % L, native=NATIVE, timeout=300 if tier == "quick" else 1500)
+
+
+def ptrcmp_jobs(tier):
+    sym = ["offset of pointer a", "offset of pointer b", "offset of pointer c (each < 2^54)"]
+    js = [Job("C11.ptrcmp.contract", "l0/bst_ptrcmp.c", sources=L0_SRC, extra_harness=["common/vf_defs.c"],
+              defines={"VF_PART": 1}, unwind=4, unwindset=lib_bounds(2), fp=FP, flags=FLAGS, symbolic=sym,
+              bounds="any three pointers less than 2^54 bytes apart", native=NATIVE, timeout=300)]
+    if tier != "quick":      # the same through insert/find/traverse: 6.7 M SAT variables (2^54-byte object), ~130 s
+        js.append(Job("C11.ptrcmp.api", "l0/bst_ptrcmp.c", sources=L0_SRC, extra_harness=["common/vf_defs.c"],
+                      defines={"VF_PART": 2}, unwind=4, unwindset=lib_bounds(2), fp=FP, flags=FLAGS, symbolic=sym[:2],
+                      bounds="any two pointers less than 2^54 bytes apart", native=NATIVE, timeout=900))
+    return js
 
 
 def jobs(tier):
     n = 3 if tier == "quick" else 4
-    js = []
-    for k in range(n + 1):
+    js = ptrcmp_jobs(tier)
+    # longest jobs first
+    for cmpf in (1, 0):
+        if tier == "quick":
+            js.append(script_job(3, cmpf, tier))
+        else:
+            js += [script_job(4, cmpf, tier, (8, i)) for i in range(8)]
+    for k in range(n, -1, -1):
         for par, side, code in shapes(k):
-            js.append(step_job(k, par, side, code, tier))
+            js += step_jobs(k, par, side, code, tier)
+            if tier != "quick" and k == 3:
+                # API-level iterator walk in the suffix also after insert / remove (instead of the parent-link check only)
+                js += step_jobs(k, par, side, code, tier, suffix_itr=True)
     return js
 
 
